@@ -52,15 +52,24 @@ let dump buf p =
                                (int_of_z c.cr) (int_of_z c.cg) (int_of_z c.cb))) dump_attrs;
   Buffer.add_char buf (bit (is_nonempty p)); Buffer.add_char buf (bit (is_nondefault p))
 let pens = [P0; P1; P2]
+(* "hk:p" (extra reference dropped inside the next change handler) is not an operation of the
+   model: event delivery is not modelled and it changes no getter; the model side prints the
+   unchanged pen, the oracle skips the token and its group *)
+let is_hk t = String.length t >= 3 && String.sub t 0 3 = "hk:"
 let model line =
-  let ops = List.map op_of_tok (split_ws line) in
   let buf = Buffer.create 4096 in
   let st = ref (fun _ -> pen_new garbage) in
-  List.iter (fun o ->
-      let (st', r) = c_step garbage !st o in
-      st := st';
-      Buffer.add_string buf (if r then "r1=" else "r0=");
-      dump buf (!st (target o)); Buffer.add_char buf ';') ops;
+  List.iter (fun t ->
+      if is_hk t then begin
+        Buffer.add_string buf "r1=";
+        dump buf (!st (pidx_of_int (ios (String.sub t 3 (String.length t - 3))))); Buffer.add_char buf ';'
+      end else begin
+        let o = op_of_tok t in
+        let (st', r) = c_step garbage !st o in
+        st := st';
+        Buffer.add_string buf (if r then "r1=" else "r0=");
+        dump buf (!st (target o)); Buffer.add_char buf ';'
+      end) (split_ws line);
   Buffer.add_char buf 'F';
   List.iter (fun i -> dump buf (!st i); Buffer.add_char buf ';') pens;
   Buffer.add_char buf 'E';
@@ -91,11 +100,13 @@ let oracle line =
   | None -> "BAD no observation"
   | Some i ->
     let c = String.sub line 0 i and o = String.trim (String.sub line (i + 1) (String.length line - i - 1)) in
-    let ops = List.map op_of_tok (split_ws c) in
+    let toks = split_ws c in
+    let ops = List.map op_of_tok (List.filter (fun t -> not (is_hk t)) toks) in
     (try
-       let groups = String.split_on_char ';' o in
+       let groups0 = String.split_on_char ';' o in
+       if List.length groups0 <> List.length toks + 4 then failwith "groups";
+       let groups = List.filteri (fun i _ -> i >= List.length toks || not (is_hk (List.nth toks i))) groups0 in
        let nops = List.length ops in
-       if List.length groups <> nops + 4 then failwith "groups";
        let rec take n l = if n = 0 then ([], l) else match l with x :: r -> let (a, b) = take (n-1) r in (x :: a, b) | [] -> failwith "take" in
        let (opg, rest) = take nops groups in
        let obs = List.map (fun g ->
